@@ -722,6 +722,7 @@ func foreignTables(repo string) (string, error) {
 		fmts []kv
 	}
 	var rows []row
+	var mapTypeShape []string
 	if oa, err := parseGo(repo, "pkg/importer/openapi.go"); err != nil {
 		unk("openapi.go: %v", err)
 	} else if fd := ftFunc(oa, "", "mapOpenAPITypeAndFormatToType"); fd == nil {
@@ -750,12 +751,15 @@ func foreignTables(repo string) (string, error) {
 		for _, s := range fd.Body.List {
 			as, ok := s.(*ast.AssignStmt)
 			if !ok || len(as.Lhs) != 1 || !isIdent(as.Lhs[0], "conversions") || len(as.Rhs) != 1 {
+				mapTypeShape = append(mapTypeShape, ftSrc(oa.fset, s))
 				continue
 			}
 			cl, ok := as.Rhs[0].(*ast.CompositeLit)
 			if !ok {
+				mapTypeShape = append(mapTypeShape, ftSrc(oa.fset, s))
 				continue
 			}
+			mapTypeShape = append(mapTypeShape, "conversions := <table>")
 			found = true
 			for _, el := range cl.Elts {
 				kve, ok := el.(*ast.KeyValueExpr)
@@ -793,6 +797,299 @@ func foreignTables(repo string) (string, error) {
 		}
 		sort.Slice(rows, func(i, j int) bool { return rows[i].typ < rows[j].typ })
 	}
+
+	// ---- the callers of the type table: the switch of typeNameFromSchemaRef, the default arm of loadTypeSchema
+	var typeNameShape, primDefShape, requestsShape, mediaFieldShape, bodyStringShape, toCamelShape, cleanMediaShape []string
+	if lg, err := parseGo(repo, "pkg/importer/openapi3_legacy.go"); err == nil {
+		if fd := ftFunc(lg, "OpenAPI3Importer", "typeNameFromSchemaRef"); fd == nil {
+			unk("typeNameFromSchemaRef not found")
+		} else {
+			n := 0
+			for _, st := range fd.Body.List {
+				sw, ok := st.(*ast.SwitchStmt)
+				if !ok {
+					continue
+				}
+				n++
+				for _, c := range sw.Body.List {
+					cc := c.(*ast.CaseClause)
+					head := "default:"
+					if cc.List != nil {
+						var es []string
+						for _, e := range cc.List {
+							es = append(es, ftSrc(lg.fset, e))
+						}
+						head = "case " + strings.Join(es, ", ") + ":"
+					}
+					typeNameShape = append(typeNameShape, head+" "+strings.Join(ftStmts(lg, cc.Body), " "))
+				}
+			}
+			if n != 1 {
+				unk("typeNameFromSchemaRef: %d switch statements", n)
+			}
+		}
+		if fd := ftFunc(lg, "OpenAPI3Importer", "loadTypeSchema"); fd != nil {
+			n := 0
+			for _, st := range fd.Body.List {
+				sw, ok := st.(*ast.SwitchStmt)
+				if !ok {
+					continue
+				}
+				for _, c := range sw.Body.List {
+					if cc := c.(*ast.CaseClause); cc.List == nil {
+						n++
+						primDefShape = ftStmts(lg, cc.Body)
+					}
+				}
+			}
+			if n != 1 {
+				unk("loadTypeSchema: %d default arms", n)
+			}
+		}
+		if fd := ftFunc(lg, "OpenAPI3Importer", "buildRequests"); fd == nil {
+			unk("buildRequests not found")
+		} else {
+			requestsShape = ftStmts(lg, fd.Body.List)
+		}
+		if fd := ftFunc(lg, "OpenAPI3Importer", "fieldForMediaType"); fd == nil {
+			unk("fieldForMediaType not found")
+		} else {
+			// up to and including the buildField call: how the parameter / field is named
+			for _, st := range fd.Body.List {
+				line := ftSrc(lg.fset, st)
+				mediaFieldShape = append(mediaFieldShape, line)
+				if strings.Contains(line, "o.buildField(") {
+					break
+				}
+			}
+		}
+	}
+	if wr, err := parseGo(repo, "pkg/importer/writer.go"); err == nil {
+		if fd := ftFunc(wr, "", "buildRequestBodyString"); fd == nil {
+			unk("buildRequestBodyString not found")
+		} else {
+			bodyStringShape = ftStmts(wr, fd.Body.List)
+		}
+	}
+	if fd := ftFunc(ut, "", "cleanMediaType"); fd == nil {
+		unk("cleanMediaType not found")
+	} else {
+		cleanMediaShape = ftStmts(ut, fd.Body.List)
+	}
+	if ents, err := os.ReadDir(filepath.Join(repo, "pkg/utils")); err == nil {
+		for _, e := range ents {
+			if !strings.HasSuffix(e.Name(), ".go") || strings.HasSuffix(e.Name(), "_test.go") {
+				continue
+			}
+			f, err := parseGo(repo, filepath.Join("pkg/utils", e.Name()))
+			if err != nil {
+				continue
+			}
+			if fd := ftFunc(f, "", "ToCamel"); fd != nil {
+				toCamelShape = ftStmts(f, fd.Body.List)
+			}
+		}
+		if toCamelShape == nil {
+			unk("utils.ToCamel not found")
+		}
+	}
+
+	// ---- xsd.go: the mapping literal of loadSchemaTypes (XSD_X = strings.ToLower(xsd.X.String()): the lower-cased
+	// name of the aqwari constant) and makeXsdBuiltinType
+	var xsdRows []kv
+	var xsdBuiltinShape []string
+	if xs, err := parseGo(repo, "pkg/importer/xsd.go"); err != nil {
+		unk("xsd.go: %v", err)
+	} else {
+		xsdNames := map[string]string{}
+		for _, d := range xs.file.Decls {
+			gd, ok := d.(*ast.GenDecl)
+			if !ok || gd.Tok != token.VAR {
+				continue
+			}
+			for _, sp := range gd.Specs {
+				vs := sp.(*ast.ValueSpec)
+				for i, n := range vs.Names {
+					if i >= len(vs.Values) || !strings.HasPrefix(n.Name, "XSD_") {
+						continue
+					}
+					src := ftSrc(xs.fset, vs.Values[i])
+					if strings.HasPrefix(src, "strings.ToLower(xsd.") && strings.HasSuffix(src, ".String())") {
+						xsdNames[n.Name] = strings.ToLower(strings.TrimSuffix(strings.TrimPrefix(src, "strings.ToLower(xsd."), ".String())"))
+					} else {
+						unk("xsd.go: %s = %s", n.Name, src)
+					}
+				}
+			}
+		}
+		if fd := ftFunc(xs, "", "loadSchemaTypes"); fd == nil {
+			unk("loadSchemaTypes not found")
+		} else {
+			found := false
+			ast.Inspect(fd.Body, func(x ast.Node) bool {
+				vs, ok := x.(*ast.ValueSpec)
+				if !ok || len(vs.Names) != 1 || vs.Names[0].Name != "xsdToSyslMappings" || len(vs.Values) != 1 {
+					return true
+				}
+				cl, ok := vs.Values[0].(*ast.CompositeLit)
+				if !ok {
+					return true
+				}
+				found = true
+				for _, el := range cl.Elts {
+					kve, ok := el.(*ast.KeyValueExpr)
+					if !ok {
+						unk("xsdToSyslMappings element %s", ftSrc(xs.fset, el))
+						continue
+					}
+					k, ok1 := "", false
+					if id, ok := kve.Key.(*ast.Ident); ok {
+						k, ok1 = xsdNames[id.Name]
+					}
+					v, ok2 := "", false
+					if ch := selChain(kve.Value); len(ch) == 2 && ch[0] == "syslutil" {
+						v, ok2 = sysDecls[ch[1]]
+					}
+					if !ok1 || !ok2 {
+						unk("xsdToSyslMappings element %s", ftSrc(xs.fset, el))
+						continue
+					}
+					xsdRows = append(xsdRows, kv{k, v})
+				}
+				return true
+			})
+			if !found {
+				unk("loadSchemaTypes: xsdToSyslMappings literal not found")
+			}
+			sort.Slice(xsdRows, func(i, j int) bool { return xsdRows[i].k < xsdRows[j].k })
+		}
+		if fd := ftFunc(xs, "", "makeXsdBuiltinType"); fd == nil {
+			unk("makeXsdBuiltinType not found")
+		} else {
+			xsdBuiltinShape = ftStmts(xs, fd.Body.List)
+		}
+	}
+
+	// ---- determinism of the endpoint side: the loop headers of convertSpec (paths) and buildEndpoint (methods),
+	// the statement of buildResponses that handles a response type whose name is already taken; the brace rule of
+	// buildQueryString and the importer's list of native type words
+	var endpointLoops, respClashShape, queryStringShape, impNative, lexNative []string
+	if lg, err := parseGo(repo, "pkg/importer/openapi3_legacy.go"); err == nil {
+		loopHeads := func(fn string, want func(string) bool) {
+			fd := ftFunc(lg, "OpenAPI3Importer", fn)
+			if fd == nil {
+				unk("%s not found", fn)
+				return
+			}
+			for _, st := range fd.Body.List {
+				rs, ok := st.(*ast.RangeStmt)
+				if !ok {
+					continue
+				}
+				head := fn + ": for "
+				if rs.Key != nil {
+					head += ftSrc(lg.fset, rs.Key)
+				}
+				if rs.Value != nil {
+					head += ", " + ftSrc(lg.fset, rs.Value)
+				}
+				head += " := range " + ftSrc(lg.fset, rs.X)
+				if want(head) {
+					endpointLoops = append(endpointLoops, head)
+				}
+			}
+		}
+		loopHeads("convertSpec", func(h string) bool { return strings.Contains(h, "ath") })
+		loopHeads("buildEndpoint", func(h string) bool { return true })
+		if fd := ftFunc(lg, "OpenAPI3Importer", "buildResponses"); fd != nil {
+			ast.Inspect(fd.Body, func(x ast.Node) bool {
+				is, ok := x.(*ast.IfStmt)
+				if !ok {
+					return true
+				}
+				if line := ftSrc(lg.fset, is); strings.HasPrefix(line, "if existing, found := o.types.Find(respType.Name())") {
+					respClashShape = append(respClashShape, line)
+				}
+				return true
+			})
+		}
+	}
+	if wr, err := parseGo(repo, "pkg/importer/writer.go"); err == nil {
+		if fd := ftFunc(wr, "", "buildQueryString"); fd == nil {
+			unk("buildQueryString not found")
+		} else {
+			queryStringShape = ftStmts(wr, fd.Body.List)
+		}
+	}
+	for _, d := range ut.file.Decls {
+		gd, ok := d.(*ast.GenDecl)
+		if !ok || gd.Tok != token.VAR {
+			continue
+		}
+		for _, sp := range gd.Specs {
+			vs := sp.(*ast.ValueSpec)
+			for i, n := range vs.Names {
+				if n.Name == "nativeDataTypes" && i < len(vs.Values) {
+					impNative = strList("nativeDataTypes")
+				}
+			}
+		}
+	}
+	if b, err := os.ReadFile(filepath.Join(repo, "pkg/grammar/SyslLexer.g4")); err == nil {
+		if body := g4Rule(string(b), "NativeDataTypes"); body != "" {
+			if k := strings.Index(body, "{"); k >= 0 {
+				body = body[:k]
+			}
+			// blanks were removed by g4Rule: put them back between the single-letter fragments
+			var sp strings.Builder
+			for i := 0; i < len(body); i++ {
+				sp.WriteByte(body[i])
+				sp.WriteByte(' ')
+			}
+			spaced := sp.String()
+			for _, dgt := range "0123456789" {
+				spaced = strings.ReplaceAll(spaced, "' "+string(dgt)+" '", "'"+string(dgt)+"'")
+			}
+			if ci, _, ok := g4Words(spaced); ok {
+				lexNative = ci
+				sort.Strings(lexNative)
+			} else {
+				unk("SyslLexer.g4: NativeDataTypes not understood: %s", spaced)
+			}
+		}
+	}
+
+	// ---- responses: whole bodies of the functions Foreign/ResponseSpec.v transliterates
+	bodyOf := func(f *goFile, recv, name string) []string {
+		fd := ftFunc(f, recv, name)
+		if fd == nil {
+			unk("%s not found", name)
+			return nil
+		}
+		return ftStmts(f, fd.Body.List)
+	}
+	var responsesShape, writeEndpointShape, safeURIShape, cleanPathShape, toSyslSafeShape []string
+	if lg, err := parseGo(repo, "pkg/importer/openapi3_legacy.go"); err == nil {
+		responsesShape = bodyOf(lg, "OpenAPI3Importer", "buildResponses")
+	}
+	if wr, err := parseGo(repo, "pkg/importer/writer.go"); err == nil {
+		// the part of writeEndpoint that writes the responses
+		if fd := ftFunc(wr, "writer", "writeEndpoint"); fd == nil {
+			unk("writeEndpoint not found")
+		} else {
+			for _, st := range fd.Body.List {
+				if is, ok := st.(*ast.IfStmt); ok && strings.Contains(ftSrc(wr.fset, is.Cond), "endpoint.Responses") {
+					writeEndpointShape = append(writeEndpointShape, ftSrc(wr.fset, is))
+				}
+			}
+			if len(writeEndpointShape) != 1 {
+				unk("writeEndpoint: %d statements about endpoint.Responses", len(writeEndpointShape))
+			}
+		}
+	}
+	safeURIShape = bodyOf(ut, "", "getSyslSafeURI")
+	cleanPathShape = bodyOf(ut, "", "cleanEndpointPath")
+	toSyslSafeShape = bodyOf(ut, "", "convertToSyslSafe")
 
 	// ---- lexer
 	nameRule, dqRule := "", ""
@@ -857,6 +1154,33 @@ func foreignTables(repo string) (string, error) {
 		o.WriteString("])")
 	}
 	o.WriteString("].\n")
+	fmt.Fprintf(&o, "Definition map_type_shape : list string :=\n  %s.\n", ftList(mapTypeShape))
+	fmt.Fprintf(&o, "Definition type_name_shape : list string :=\n  %s.\n", ftList(typeNameShape))
+	fmt.Fprintf(&o, "Definition prim_def_shape : list string :=\n  %s.\n", ftList(primDefShape))
+	fmt.Fprintf(&o, "Definition requests_shape : list string :=\n  %s.\n", ftList(requestsShape))
+	fmt.Fprintf(&o, "Definition media_field_shape : list string :=\n  %s.\n", ftList(mediaFieldShape))
+	fmt.Fprintf(&o, "Definition body_string_shape : list string :=\n  %s.\n", ftList(bodyStringShape))
+	fmt.Fprintf(&o, "Definition clean_media_shape : list string :=\n  %s.\n", ftList(cleanMediaShape))
+	fmt.Fprintf(&o, "Definition to_camel_shape : list string :=\n  %s.\n", ftList(toCamelShape))
+	fmt.Fprintf(&o, "Definition endpoint_loops : list string :=\n  %s.\n", ftList(endpointLoops))
+	fmt.Fprintf(&o, "Definition resp_clash_shape : list string :=\n  %s.\n", ftList(respClashShape))
+	fmt.Fprintf(&o, "Definition query_string_shape : list string :=\n  %s.\n", ftList(queryStringShape))
+	fmt.Fprintf(&o, "Definition importer_native_types : list string :=\n  %s.\n", ftList(impNative))
+	fmt.Fprintf(&o, "Definition lexer_native_types : list string :=\n  %s.\n", ftList(lexNative))
+	fmt.Fprintf(&o, "Definition responses_shape : list string :=\n  %s.\n", ftList(responsesShape))
+	fmt.Fprintf(&o, "Definition write_responses_shape : list string :=\n  %s.\n", ftList(writeEndpointShape))
+	fmt.Fprintf(&o, "Definition safe_uri_shape : list string :=\n  %s.\n", ftList(safeURIShape))
+	fmt.Fprintf(&o, "Definition clean_path_shape : list string :=\n  %s.\n", ftList(cleanPathShape))
+	fmt.Fprintf(&o, "Definition to_sysl_safe_shape : list string :=\n  %s.\n", ftList(toSyslSafeShape))
+	o.WriteString("Definition xsd_type_table : list (string * string) :=\n  [")
+	for i, e := range xsdRows {
+		if i > 0 {
+			o.WriteString("; ")
+		}
+		fmt.Fprintf(&o, "(%s, %s)", ftCoq(e.k), ftCoq(e.v))
+	}
+	o.WriteString("].\n")
+	fmt.Fprintf(&o, "Definition xsd_builtin_shape : list string :=\n  %s.\n", ftList(xsdBuiltinShape))
 	fmt.Fprintf(&o, "Definition lexer_name_rule : string := %s.\n", ftCoq(nameRule))
 	fmt.Fprintf(&o, "Definition lexer_dq_rule : string := %s.\n", ftCoq(dqRule))
 	fmt.Fprintf(&o, "Definition lexer_keywords_ci : list string :=\n  %s.\n", ftList(kwCI))
